@@ -655,6 +655,35 @@ pub fn c03(tier: Tier) -> ! {
                 }
             }
         }
+        // states with two occupied sites (a second general site; a site of multiplicity one):
+        // the normalisation is per molecule, whatever the sites' multiplicities
+        let ident = wyckoff_json("p1");
+        let general = wyckoff_json(group);
+        for &ratio in ratios.iter().take(2) {
+            for (wi, w) in [&general, &ident].iter().enumerate() {
+                for &length in [3.2 * r * n as f64, 2.4 * r * n as f64].iter() {
+                    for &(x, y, phi) in [(0.11, -0.2, 0.3), (-0.4, 0.33, 2.2)].iter() {
+                        let p = Params { length, ratio, angle: angles[0], x, y, phi };
+                        let doc = with_second_site(&tpl.with(&p), w, wrap_half(x + 0.37), wrap_half(y - 0.29), phi + 1.);
+                        let st = match AnyState::from_json(&doc) {
+                            Ok(s) => s,
+                            Err(e) => machinery_error(&e),
+                        };
+                        evals += 1;
+                        let (o, fail) = c03_judge(&st, &sj, &p);
+                        if o.map(|v| v.pairs > 0).unwrap_or(false) {
+                            nontrivial += 1;
+                        }
+                        if let Some((key, what)) = fail {
+                            fail_count += 1;
+                            if fails.len() < 4 {
+                                fails.push((key, format!("{} {} with two occupied sites ({}): {}", group, spec.label(), if wi == 0 { "two general sites" } else { "general site and a site of multiplicity one" }, what), json!({"engine": "document", "group": group, "shape_label": spec.label(), "state": doc})));
+                            }
+                        }
+                    }
+                }
+            }
+        }
         (evals, redesc, nontrivial, fail_count, fails)
     });
     let (mut evals, mut redesc, mut nontrivial, mut fc) = (0u64, 0u64, 0u64, 0u64);
